@@ -195,7 +195,7 @@ P['C16'] = dict(
             outside='the float claim that spread coordinates lie inside the bin is declined: the linear error model cannot close it (reported as not proved, harness H16S kept in the source for reference); whole rough-legalization runs only in the thorough tier (H16C, time-bounded); margin clipping of fromIspdCircuit; larger grids'),
   assumptions=STD_ASSUME + ['regions (rows) are pairwise disjoint'],
   harnesses=[
-    dict(name='H16A', src='C16_density.cpp', covers=['grid built', 'end'], defines={'VCAP': 8, 'H16A': None, 'NREG': 2}, cfg=dict(fp='havoc'), split=3, ir_srcs=ALL_IR, native_srcs=ALL_IR, native_flags=['-llemon']),
+    dict(name='H16A', src='C16_density.cpp', covers=['grid built', 'end'], defines={'VCAP': 8, 'H16A': None, 'NREG': 2, 'YCH': 3}, cfg=dict(fp='havoc'), split=3, ir_srcs=ALL_IR, native_srcs=ALL_IR, native_flags=['-llemon']),
     dict(name='H16B', src='C16_density.cpp', covers=['built', 'end'], defines={'VCAP': 8, 'H16B': None, 'NOPS': 3}, cfg=dict(fp='havoc'), ir_srcs=ALL_IR, native_srcs=ALL_IR, native_flags=['-llemon'],
          thorough=dict(defines={'NOPS': 4})),
     dict(name='H16R', src='C16_density.cpp', covers=['distributed', 'end'], defines={'VCAP': 8, 'H16R': None}, cfg=dict(fp='havoc', time_budget=40), ir_srcs=ALL_IR, native_srcs=ALL_IR, native_flags=['-llemon']),
@@ -206,10 +206,11 @@ P['C16'] = dict(
 P['C17'] = dict(
   design_ref='DESIGN.md section 3 C17',
   level_text='The solve itself is Eigen (environment); what the repository owns is the linear system. Solver-checked on the real NetModel / MatrixCreator code with symbolic real-valued weight and pin offsets: for two-pin nets in the initial star model (movable-movable and movable-fixed) the net model stores the weight unchanged and the assembled entries are exactly w, -w and w*(offset difference) - the system whose solution is the weighted least-squares optimum, so the pull of a net is proportional to its (fractional) weight. Float arithmetic in the linear error model with rounding treated as a function of the exact expression.',
-  text=dict(bounds=dict(quick='1 net, 2 pins (one optionally fixed), weight symbolic in [2^-7, 64], offsets in [-1000,1000]', thorough='same'),
-            outside='power-of-two scaling invariance of every net model (needs bit-exact float reasoning: declined, harness H17A kept in the source); nets of degree > 2, B2B/clique/light-star weights 1/distance; penalties; the tolerance clause (conjugate-gradient behaviour)'),
+  text=dict(bounds=dict(quick='1 net, 2 pins (one optionally fixed), weight symbolic in [2^-7, 64], offsets in [-1000,1000]; H17C: cell 0 with a weighted fixed-pin net, cell 1 without nets, penalties of strength 0 or symbolic in [0.01,2] on either, added or not: finalize() puts its constant 1e-8 regulariser only on rows without a diagonal contribution (the system-level condition for scaling invariance)', thorough='same'),
+            outside='entry-wise power-of-two scaling invariance of every net model (needs bit-exact float reasoning: declined, harness H17A kept in the source; only the regulariser condition H17C is checked); nets of degree > 2, B2B/clique/light-star weights 1/distance; penalties; the tolerance clause (conjugate-gradient behaviour)'),
   assumptions=STD_ASSUME + [EIGEN_ASSUME, 'float rounding modelled as a function fl(e)=e+eta(e), |eta|<=2^-24 M(e)'],
   harnesses=[
+    dict(name='H17C', src='C17_weights.cpp', covers=['end'], defines={'VCAP': 8, 'H17C': None}, cfg=dict(fp='real', query_timeout_ms=60000), diff_samples=0, ir_srcs=ALL_IR, native_srcs=ALL_IR, native_flags=['-llemon']),
     dict(name='H17B', src='C17_weights.cpp', covers=['end'], defines={'VCAP': 6, 'H17B': None}, cfg=dict(fp='real', query_timeout_ms=60000), ir_srcs=ALL_IR, native_srcs=ALL_IR, native_flags=['-llemon']),
   ])
 
@@ -234,7 +235,7 @@ P['C08'] = dict(
             outside='the thread library and Eigen internals (environment); bitwise identity across machines; float results (all floats are unconstrained in these runs)'),
   assumptions=STD_ASSUME + [EIGEN_ASSUME, 'std::async(launch::async, f, args...) decay-copies its arguments before the task runs and get() joins'],
   harnesses=[
-    dict(name='H08G', src='C03_global.cpp', covers=['placeGlobal ended', 'end'], defines={'VCAP': 24, 'MAXSTEPS': 1}, cfg=dict(fp='havoc', time_budget=40, scan_globals=True), split=4, ir_srcs=ALL_IR, native_srcs=ALL_IR, native_flags=['-llemon'],
+    dict(name='H08G', src='C03_global.cpp', covers=['placeGlobal ended', 'end'], defines={'VCAP': 24, 'MAXSTEPS': 1, 'INITCH': 2}, cfg=dict(fp='havoc', time_budget=40, scan_globals=True), split=4, ir_srcs=ALL_IR, native_srcs=ALL_IR, native_flags=['-llemon'],
          thorough=dict(defines={'MAXSTEPS': 2}, cfg=dict(time_budget=600))),
     dict(name='H08D', src='C10_busy.cpp', covers=['placement call ended', 'end'], defines={'VCAP': 8}, cfg=dict(fp='havoc', scan_globals=True), ir_srcs=ALL_IR, native_srcs=ALL_IR, native_flags=['-llemon']),
   ])
@@ -270,12 +271,13 @@ P['C07'] = dict(
 
 P['C18'] = dict(
   design_ref='DESIGN.md section 3 C18',
-  level_text='(F) Frame: expandCellsToDensity and expandCellsByFactor executed with every field of the circuit except the widths of movable cells write-protected and all float values unconstrained: no other location is written on any path, no error is raised; public getters compared afterwards. (D, E) Numeric claims under the floating-point error model (every rounding an independent error bounded by half an ulp, integer-to-float conversions encoded exactly, truncations as integer floors), symbolic density target / cap over concrete mixed-height cells: no movable cell gets narrower, the movable area afterwards does not exceed target x available area beyond 1e-6 relative (ByFactor: + 3 units for its integer truncations), and for expandCellsToDensity it is within one cell height of it when the per-cell cap is not hit; (E) a single cell of symbolic width up to 2^26 is not narrowed by expandCellsByFactor.',
+  level_text='(F) Frame: expandCellsToDensity and expandCellsByFactor executed with every field of the circuit except the widths of movable cells write-protected and all float values unconstrained: no other location is written on any path, no error is raised; public getters compared afterwards. (D, E) Numeric claims under the floating-point error model (every rounding an independent error bounded by half an ulp, integer-to-float conversions encoded exactly, truncations as integer floors), symbolic density target / cap over concrete mixed-height cells: no movable cell gets narrower, the movable area afterwards does not exceed target x available area beyond 1e-6 relative (ByFactor: + 3 units for its integer truncations), and for expandCellsToDensity it is within one cell height of it when the per-cell cap is not hit; (E) a single cell of symbolic width up to 2^26 is not narrowed by expandCellsByFactor. (C) computeCellExpansion: 1 for fixed or uncongested cells, otherwise the largest factor among the congested regions the cell intersects, for 2 regions of symbolic geometry.',
   text=dict(bounds=dict(quick='F: 3 cells (2 movable, 1 fixed at a symbolic position), 4 rows, targets/margins/caps symbolic. D: 3 movable cells of heights 10/20/30 in 3 concrete size sets + 1 fixed, rows 100x40, margin 0, target symbolic in [1.001 x density, 0.95], cap 12 or 100. E: 2 size sets, factors {1,1.5,2}x{1,2.5}x1.25, cap symbolic in [1.001 x density, 0.95]; one cell of symbolic width 1..2^26 with factor 1 or 1.5', thorough='same'),
-            outside='computeCellExpansion factors (harness H18C kept in the source: neither the error model nor exact z3 floating point closes it in the budget); symbolic cell sizes together with symbolic factors (products of two symbolic quantities); side margins other than 0 in the numeric harnesses; targets within 0.1 % of the current density'),
+            outside='computeCellExpansion with symbolic congestion values (H18C uses 3 concrete values per region and 2 regions with symbolic geometry); symbolic cell sizes together with symbolic factors (products of two symbolic quantities); side margins other than 0 in the numeric harnesses; targets within 0.1 % of the current density'),
   assumptions=STD_ASSUME + [BOOST_ASSUME],
   harnesses=[
     dict(name='H18D', src='C18_expand.cpp', covers=['end'], defines={'VCAP': 8, 'H18D': None}, cfg=dict(fp='real', query_timeout_ms=60000, time_budget=120, loop_cap=8), diff_samples=0, ir_srcs=ALL_IR, native_srcs=ALL_IR, native_flags=['-llemon']),
     dict(name='H18E', src='C18_expand.cpp', covers=['end'], defines={'VCAP': 8, 'H18E': None}, cfg=dict(fp='real', fp_rel=True, query_timeout_ms=60000, time_budget=120, loop_cap=8), diff_samples=0, ir_srcs=ALL_IR, native_srcs=ALL_IR, native_flags=['-llemon']),
+    dict(name='H18C', src='C18_expand.cpp', covers=['end'], defines={'VCAP': 8, 'H18C': None, 'CONGCHOICES': 3}, cfg=dict(fp='real', query_timeout_ms=60000, time_budget=120), diff_samples=0, ir_srcs=ALL_IR, native_srcs=ALL_IR, native_flags=['-llemon']),
     dict(name='H18F', src='C18_expand.cpp', covers=['end'], defines={'VCAP': 8, 'H18F': None}, cfg=dict(fp='havoc', time_budget=60, loop_cap=8), split=2, ir_srcs=ALL_IR, native_srcs=ALL_IR, native_flags=['-llemon']),
   ])
